@@ -338,6 +338,9 @@ func (n *RegexNode) finalOptimize() *RegexNode {
 		node := rootNode.Children[0] // skip implicit root capture node
 		atomicByAncestry := true     // the root is implicitly atomic because nothing comes after it (same for the implicit root capture)
 		for {
+			if verifRewritesOff&4 != 0 {
+				break
+			}
 			if node.T == NtAtomic {
 				node = node.Children[0]
 				continue
@@ -370,6 +373,9 @@ func (n *RegexNode) finalOptimize() *RegexNode {
 // to {one/notone/set}loopatomic nodes.  Such changes avoid potential useless backtracking.
 // e.g. A*B (where sets A and B don't overlap) => (?>A*)B.
 func (n *RegexNode) findAndMakeLoopsAtomic() {
+	if verifRewritesOff&1 != 0 {
+		return
+	}
 	if n.Options&RightToLeft != 0 {
 		// RTL is so rare, we don't need to spend additional time/code optimizing for it.
 		return
@@ -591,12 +597,19 @@ func (n *RegexNode) reduceAtomic() *RegexNode {
 	// If an atomic subexpression contains only a {one/notone/set}{loop/lazy},
 	// change it to be an {one/notone/set}loopatomic and remove the atomic node.
 	case NtOneloop, NtNotoneloop, NtSetloop, NtOnelazy, NtNotonelazy, NtSetlazy:
+		if verifRewritesOff&64 != 0 {
+			return atomic
+		}
 		child.makeLoopAtomic()
 		return child
 
 	// Alternations have a variety of possible optimizations that can be applied
 	// iff they're atomic.
 	case NtAlternate:
+		if verifRewritesOff&32 != 0 {
+			child.eliminateEndingBacktracking()
+			return atomic
+		}
 		if (n.Options & RightToLeft) == 0 {
 			branches := child.Children
 
@@ -734,6 +747,9 @@ func (n *RegexNode) makeLoopAtomic() {
 // the provided node.  That means it must be at the root of the overall expression, or
 // it must be an Atomic node that nothing will backtrack into by the very nature of Atomic.
 func (n *RegexNode) eliminateEndingBacktracking() {
+	if verifRewritesOff&2 != 0 {
+		return
+	}
 	// Walk the tree starting from the current node.
 	node := n
 	for {
@@ -1051,6 +1067,9 @@ func (n *RegexNode) reduceAlternation() *RegexNode {
 // if we end up backtracking into subsequent branches.
 // e.g. abc|ade => a(?bc|de)
 func (n *RegexNode) extractCommonPrefixText() *RegexNode {
+	if verifRewritesOff&8 != 0 {
+		return n
+	}
 	// To keep things relatively simple, we currently only handle:
 	// - Left to right (e.g. we don't process alternations in lookbehinds)
 	// - Branches that are one or multi nodes, or that are concatenations beginning with one or multi nodes.
@@ -1166,6 +1185,9 @@ func (n *RegexNode) extractCommonPrefixText() *RegexNode {
 // the same across multiple contiguous branches.
 // e.g. \w12|\d34|\d56|\w78|\w90 => \w12|\d(?:34|56)|\w(?:78|90)
 func (n *RegexNode) extractCommonPrefixOneNotoneSet() *RegexNode {
+	if verifRewritesOff&16 != 0 {
+		return n
+	}
 	// Only process left-to-right prefixes.
 	if (n.Options & RightToLeft) != 0 {
 		return n
